@@ -3,13 +3,14 @@
 #define VK_MAIN
 #include "../kit/viewprog.hpp"
 #include <algorithm>
+#include <functional>
 #include <numeric>
 using namespace vk;
 
 using Val = std::vector<int>;  // model value: flattened (canonical order) sub-view, or a single element
 
-static char const* ALG[] = {"sort", "stable_sort", "partial_sort", "nth_element", "rotate", "reverse", "partition", "unique", "remove", "copy", "copy_backward", "move", "swap_ranges", "fill", "transform", "find", "equal", "is_sorted", "accumulate", "lexicographical_compare"};
-constexpr int NALG = 20;
+static char const* ALG[] = {"sort", "stable_sort", "partial_sort", "nth_element", "rotate", "reverse", "partition", "unique", "remove", "copy", "copy_backward", "move", "swap_ranges", "fill", "transform", "find", "equal", "is_sorted", "accumulate", "lexicographical_compare", "sort(greater)", "stable_sort(greater)", "is_sorted(greater)", "lexicographical_compare(greater)"};
+constexpr int NALG = 24;  // 20..23: the comparator forms (std::greater<>, i.e. operator> of the proxies)
 
 // ---- helpers that work on ints, model values and real rows alike
 inline int head(int x) { return x; }
@@ -47,7 +48,11 @@ template<class It, class It2> Res run_alg(int alg, It b, It e, It2 b2, It2 e2, L
 	case 16: r.val = std::equal(b, e, b2) ? 1 : 0; break;
 	case 17: r.val = std::is_sorted(b, e) ? 1 : 0; break;
 	case 18: r.val = std::accumulate(b, e, 0UL, [](unsigned long a, auto const& x) { return a * 1000003UL + hsh(x); }); break;
-	default: r.val = std::lexicographical_compare(b, e, b2, e2) ? 1 : 0; break;
+	case 19: r.val = std::lexicographical_compare(b, e, b2, e2) ? 1 : 0; break;
+	case 20: std::sort(b, e, std::greater<>{}); break;
+	case 21: std::stable_sort(b, e, std::greater<>{}); break;
+	case 22: r.val = std::is_sorted(b, e, std::greater<>{}) ? 1 : 0; break;
+	default: r.val = std::lexicographical_compare(b, e, b2, e2, std::greater<>{}) ? 1 : 0; break;
 	}
 	return r;
 }
@@ -79,7 +84,7 @@ template<class V, class VB> void exercise(V&& v, VB&& vb, MV const& m, MV const&
 	// (empty ranges: the model is the trivial one — position 0, neutral result — std::vector iterators of an empty vector are null pointers)
 	std::vector<Val> ma = sa, mb = sb; Res rm;
 	if(n > 0) { rm = run_alg(c.alg, ma.begin(), ma.end(), mb.begin(), mb.end(), c.mid, c.k); }
-	else { bool const haspos = (c.alg == 4 || (c.alg >= 6 && c.alg <= 12) || c.alg == 14 || c.alg == 15) && !(c.alg == 8 || c.alg == 15); rm.pos = haspos ? 0 : -1; rm.val = (c.alg == 16 || c.alg == 17) ? 1 : 0; }
+	else { bool const haspos = (c.alg == 4 || (c.alg >= 6 && c.alg <= 12) || c.alg == 14 || c.alg == 15) && !(c.alg == 8 || c.alg == 15); rm.pos = haspos ? 0 : -1; rm.val = (c.alg == 16 || c.alg == 17 || c.alg == 22) ? 1 : 0; }
 	// real run
 	Res rr;
 	if(c.lead) { rr = run_alg(c.alg, v.begin(), v.end(), vb.begin(), vb.end(), c.mid, c.k); }
@@ -106,7 +111,7 @@ template<class V, class VB> void exercise(V&& v, VB&& vb, MV const& m, MV const&
 	std::vector<char> in(rootA.size(), 0), inb(rootA.size(), 0); for(L o : m.off) in[std::size_t(o)] = 1; for(L o : m2.off) inb[std::size_t(o)] = 1;
 	for(std::size_t i = 0; i < rootA.size(); ++i) { if(!in[i] && pa != pb && pa[i] != rootA[i]) violation(K + "outside-view-modified", "element outside the view changed (root offset " + std::to_string(i) + ")"); if(!inb[i] && pa != pb && pb[i] != rootB[i]) violation(K + "outside-view-modified-2nd", "element outside the second view changed"); }
 	// read-only algorithms must not modify anything
-	if(c.alg >= 15) { for(std::size_t i = 0; i < rootA.size(); ++i) if(pa[i] != rootA[i] || pb[i] != rootB[i]) violation(K + "input-modified", "read-only algorithm modified its input"); }
+	if((c.alg >= 15 && c.alg < 20) || c.alg >= 22) { for(std::size_t i = 0; i < rootA.size(); ++i) if(pa[i] != rootA[i] || pb[i] != rootB[i]) violation(K + "input-modified", "read-only algorithm modified its input"); }
 	count(std::string("alg:") + ALG[c.alg]); count(c.lead ? "range:lead" : "range:elements"); count("elements_compared", L(aa.size()) * (aa.empty() ? 0 : L(aa[0].size())));
 	nontrivial(n >= 2);
 }
